@@ -159,6 +159,15 @@ def writer_board(ctx, F, em):
             inc = True
         if n.get("k") == "Assign" and hir.strip(n["l"]).get("to", {}).get("name") == cnt and hir.strip(n["r"]).get("v") == 0:
             reset = True
+            # the reset comes after the flush it belongs to (a reset in front of it makes every run print as 0)
+            blk = [a_ for a_ in anc if a_.get("k") == "Block"]
+            if blk:
+                sts = blk[-1].get("stmts") or []
+                me = next((i_ for i_, st_ in enumerate(sts) if any(x is n for x, _ in hir.walk(st_))), None)
+                fl = [i_ for i_, st_ in enumerate(sts) if any(x.get("k") == "MethodCall" and x.get("name") == "to_string" and
+                                                               hir.strip(x["recv"]).get("to", {}).get("name") == cnt for x, _ in hir.walk(st_))]
+                if me is not None and fl and min(fl) > me:
+                    reset = False
         if n.get("k") == "SLet" and n["pat"].get("name") == cnt and hir.strip(n["init"]).get("v") == 0:
             init_in_rank = sum(1 for a in anc if a.get("k") == "Loop") == 1
     ctx.check("C11.T3", "writer:empty-run-counter", inc and reset and init_in_rank, fn=WRITER, file=fn["file"],
